@@ -98,8 +98,13 @@ def with_vals_after_state(h):
                 out.append('vals ' + t[1])
             # ... and, at every other export, by the cached count (a count inherited from the operand of a copying
             # operation, or left stale by the operation that produced / changed X: seeded changes C12f, C10f, C02f)
-            if (i + len(h)) % 2 == 0 and not nxt.startswith('nvalid ' + t[1]):
-                out.append('nvalid ' + t[1])
+            # ... and, in rotation, by one more observer of the model's own view of X: the cached count (a count
+            # inherited from the operand of a copying operation, or left stale by the operation that produced /
+            # changed X: seeded changes C12f, C10f, C02f), the coverage mask (a result whose coverage is not the
+            # documented union: C11f), the header (storage kind, dtype, sentinel of a result: C07f, C03f)
+            extra = ('nvalid', 'covmask', 'info')[(i + len(h)) % 3]
+            if not nxt.startswith(extra + ' ' + t[1]):
+                out.append(extra + ' ' + t[1])
     return out
 
 
